@@ -1,7 +1,25 @@
 // Package c18 is a positive control for the prefix-immutability rule.
 package c18
 
+import (
+	storetypes "github.com/cosmos/cosmos-sdk/store/types"
+	sdk "github.com/cosmos/cosmos-sdk/types"
+)
+
 var Prefix = []byte{0x01}
 
 // Mutate assigns to a package-level prefix variable after init.
 func Mutate() { Prefix = append(Prefix, 0x02) }
+
+// BoundedScan iterates a raw key range whose end is an ordinary key: the end bound of a store
+// iterator is exclusive, so the record stored under `last` is never visited (positive control for
+// the iterator-end-bound rule).
+func BoundedScan(ctx sdk.Context, key storetypes.StoreKey, first, last []byte) int {
+	it := ctx.KVStore(key).Iterator(first, last)
+	defer it.Close()
+	n := 0
+	for ; it.Valid(); it.Next() {
+		n++
+	}
+	return n
+}
